@@ -966,8 +966,8 @@ def gen_cases(ctx):
         for kind in ('up', 'ack', 'mix'):
             neg = [('up' if (kind == 'up' or (kind == 'mix' and i % 2)) else 'ack') for i in range(lost)]
             cases.append(exhaustive_case(['ok', 'ok', 'ack', 'ok', 'ok', 'ok'], 0b000011, 0b000101, 2, neg + ['ok'], full=True))
-    # (3) the whole stack (connect -> RadioManager -> shared radio thread -> Crazyradio -> USB) on all outcome strings, k <= 4 (5)
-    for k in range(0, (6 if thorough else 5)):
+    # (3) the whole stack (connect -> RadioManager -> shared radio thread -> Crazyradio -> USB) on all outcome strings, k <= 5 (6)
+    for k in range(0, (7 if thorough else 6)):
         for outs in itertools.product(O, repeat=k):
             cases.append(exhaustive_case(outs, rng.getrandbits(k) if k else 0, rng.getrandbits(k) if k else 0, 2, ['ack', 'ok'], full=True))
     # (4) random long scripts
